@@ -91,6 +91,27 @@ fn fpos(rt: &tokio::runtime::Runtime, dir: &std::path::Path, data: &[u8], start:
     })
 }
 
+/// `read_next` until it fails, at most `count` times: the frames it returned
+fn fnext(rt: &tokio::runtime::Runtime, dir: &std::path::Path, data: &[u8], start: u64, count: usize) -> String {
+    let path = dir.join("fnext_file");
+    std::fs::write(&path, data).unwrap();
+    rt.block_on(async {
+        let f = tokio::fs::OpenOptions::new().read(true).open(&path).await.unwrap();
+        let mut fr = FileMessageReader::new(f, start);
+        if fr.seek_start(start).await.is_err() {
+            return "err".to_string();
+        }
+        let mut ms = vec![];
+        for _ in 0..count {
+            match fr.read_next().await {
+                Ok(m) => ms.push(m),
+                Err(_) => break,
+            }
+        }
+        show_msgs(&ms, false)
+    })
+}
+
 pub fn run() {
     let rt = tokio::runtime::Builder::new_current_thread().enable_all().build().unwrap();
     let dir = tempfile::tempdir().unwrap();
@@ -160,6 +181,10 @@ pub fn run() {
                 ["scanfile", bs] => match parse_bytes(bs) {
                     Some(b) => scanfile(&rt, dir.path(), &b),
                     None => "bad-op".to_string(),
+                },
+                ["fnext", bs, st, cnt] => match (parse_bytes(bs), st.parse::<u64>(), cnt.parse::<usize>()) {
+                    (Some(b), Ok(s), Ok(c)) => fnext(&rt, dir.path(), &b, s, c),
+                    _ => "bad-op".to_string(),
                 },
                 ["fpos", bs, st, idx] => match (parse_bytes(bs), st.parse::<u64>(), idx.parse::<usize>()) {
                     (Some(b), Ok(s), Ok(i)) => fpos(&rt, dir.path(), &b, s, i),
